@@ -79,23 +79,30 @@ def fam_sig(cf):
 
 def chunks_of(ctx, cases_path, tag, size=60000):
     """Yield (chunk_path, cases) so that observations of at most `size` cases are in memory."""
-    buf, k = [], 0
+    # the table of minimal unit images goes first in every part (the harness keeps it)
+    header = []
+    with open(cases_path) as f:
+        for line in f:
+            if '"sys":"unitimages"' in line:
+                header = [line]
+                break
+    buf, k = list(header), 0
     def flush():
         nonlocal buf, k
         p = os.path.join(ctx.work, "%s-part%d.ndjson" % (tag, k))
         with open(p, "w") as f:
             f.writelines(buf)
         cases = [json.loads(l) for l in buf]
-        buf = []
+        buf = list(header)
         k += 1
         return p, cases
     with open(cases_path) as f:
         for line in f:
-            if line.strip():
+            if line.strip() and '"sys":"unitimages"' not in line:
                 buf.append(line)
                 if len(buf) >= size:
                     yield flush()
-    if buf:
+    if len(buf) > len(header):
         yield flush()
 
 
@@ -111,6 +118,8 @@ def check_list_cases(ctx, binpath, cases_path, tag):
 def check_list_chunk(ctx, cases, obs, base):
     n = 0
     for i, case in enumerate(cases):
+        if case.get("sys") != "list":
+            continue
         n += 1
         o = obs.get(i)
         fs = fam_sig(case["cf"])
@@ -148,6 +157,13 @@ def check_list_chunk(ctx, cases, obs, base):
         for d in o["diff"]:
             ctx.violation("list:%s:config-dependent:v%s-fmt%s-dwo%s" % (fs, d["cf"]["ver"], d["cf"]["fmt"], d["cf"]["dwo"]),
                           "the same bytes resolve differently under %s: %s" % (d["cf"], json.dumps(d["obs"])[:400]), case, o)
+        if o.get("dvariants", 0) < o["variants"]:
+            ctx.violation("list:%s:dwarf-level-not-run" % fs, "only %s of the Dwarf-level configurations were run" % o.get("dvariants"), case, o)
+        for d in o.get("ddiff", []):
+            ctx.violation("list:%s:dwarf-level:v%s-%s" % (fs, d["cf"]["ver"], "dwo" if d["cf"]["dwo"] else "main"),
+                          "Dwarf::/UnitRef:: raw_ranges / ranges / raw_locations / locations of a %s unit differ from the section-level "
+                          "iterators on the same bytes: %s, section-level raw %s resolved %s" %
+                          (d["cf"], json.dumps(d["obs"])[:400], json.dumps(o["raw"])[:300], json.dumps(o["res"])[:300]), case, o)
         if case["n"] >= 1:
             ctx.nontrivial(canon([case["cf"], case["sec"], case["ub"]]))
     return n
@@ -179,11 +195,19 @@ def cmp_die(ctx, case, o, exp=None):
             bad.append(("attr_ranges", "attribute %d: expected %s observed %s" % (k, e["rr"], g["rr"])))
         if not same(e["lr"], g["lr"], ctx, "die:attr_locations"):
             bad.append(("attr_locations", "attribute %d: expected %s observed %s" % (k, e["lr"], g["lr"])))
+        if not same(e["rw"], g.get("rw"), ctx, "die:raw_ranges"):
+            bad.append(("raw_ranges", "attribute %d: Dwarf::raw_ranges at the attribute's offset: expected %s observed %s" % (k, e["rw"], g.get("rw"))))
+        if not same(e["lw"], g.get("lw"), ctx, "die:raw_locations"):
+            bad.append(("raw_locations", "attribute %d: Dwarf::raw_locations at the attribute's offset: expected %s observed %s" % (k, e["lw"], g.get("lw"))))
     ed = exp["die"]
     want = ed if ed["t"] == "err" else {"t": "ok", "items": ed["items"]}
     for name in ("die", "ur"):
         if not same(want, o.get(name), ctx, "die:" + name):
             bad.append(("die_ranges" if name == "die" else "unit_ranges", "expected %s observed %s" % (want, o.get(name))))
+    if o.get("api_same") is False:
+        bad.append(("offset-api", "Dwarf::ranges/locations(unit, offset) differ from attr_ranges/attr_locations at the same offset"))
+    if o.get("uref_same") is False:
+        bad.append(("unitref", "UnitRef methods differ from the Dwarf methods: %s" % json.dumps(o.get("uref"))[:500]))
     if exp["raw0"] != o.get("raw0"):
         bad.append(("ranges_offset_from_raw", "raw offset 5: expected %s observed %s" % (exp["raw0"], o.get("raw0"))))
     return sig, bad
